@@ -630,11 +630,12 @@ class M68k(Machine):
     ENDIAN = "big"
     arg_bytes = 12          # return address + two 32-bit stack arguments are read above the entry SP
 
-    def __init__(self, text):
+    def __init__(self, text, coldfire=False):
         Machine.__init__(self, text)
         self.d = [0] * 8
         self.a = [0] * 8
         self.z = 0
+        self.coldfire = coldfire
 
     def sp(self):
         return self.a[7]
@@ -736,6 +737,8 @@ class M68k(Machine):
             dst = self.ea(o[0])
             self.wr(dst, ~self.rd(dst))
         elif mn in ("ror.l", "lsr.l", "lsl.l", "rol.l"):
+            if self.coldfire and mn in ("ror.l", "rol.l"):
+                raise EmuError("%s does not exist on ColdFire cores (the file's __mcoldfire__ text must build rotations from shifts)" % mn)
             e = self.ea(o[0])
             n = self.rd(e)
             if e[0] == "i":
